@@ -113,7 +113,7 @@ def gen_span_programs(tier: str, rnd: random.Random) -> list[dict]:
         for e in lst:
             if not writable(target, e):
                 continue
-            for v in sample_values(e, rnd, 3 if quick else 40):
+            for v in sample_values(e, rnd, 8 if quick else 40):
                 regs = {}
                 for a in range(e["addr"] - 1, e["addr"] + 8):
                     regs[str(a)] = rnd.randrange(65536)
